@@ -89,9 +89,16 @@ fn seed_from_env() -> u64 {
     std::env::var("VERIF_SEED").ok().and_then(|s| s.trim().parse::<i64>().ok()).map(|v| v as u64).unwrap_or(1)
 }
 
-fn nworkers() -> usize {
+fn nworkers(id: &str) -> usize {
     std::env::var("P2V_WORKERS").ok().and_then(|s| s.parse().ok()).unwrap_or_else(|| {
-        std::thread::available_parallelism().map(|n| n.get()).unwrap_or(8).min(16)
+        let n = std::thread::available_parallelism().map(|n| n.get()).unwrap_or(8).min(16);
+        // checks that spawn the p2sh binary: process creation does not scale in this
+        // sandbox (more than ~4 concurrent spawners lower the total throughput)
+        if matches!(id, "C20" | "C21" | "C22" | "C23" | "C24") {
+            n.min(4)
+        } else {
+            n
+        }
     })
 }
 
@@ -169,7 +176,7 @@ fn check(id: &str, tier: Tier) -> i32 {
     }
     let t0 = Instant::now();
     let seed = seed_from_env();
-    let n = nworkers();
+    let n = nworkers(id);
     let dir = scratch_root().join(format!("p2v-{}-{}", id, std::process::id()));
     let _ = std::fs::remove_dir_all(&dir);
     std::fs::create_dir_all(&dir).unwrap();
